@@ -442,6 +442,32 @@ func (ru *runner) checkDisk(w *world, dir string, f *faultSpec, wit func() map[s
 				}
 			}
 		}
+		// the complete version of ANOTHER list?
+		other := ""
+		if what == "unrecognised" {
+			for _, x := range allTargets {
+				if x == t {
+					continue
+				}
+				if xv, isX := w.legit.versionOf(x, b); isX {
+					other = x
+					what = fmt.Sprintf("exactly complete version %d of ANOTHER list, %s", xv, x)
+					break
+				}
+			}
+		}
+		if other != "" {
+			summ[n] = "NOT-A-COMPLETE-VERSION: " + what
+			origin[t] = "content-of-" + other
+			if wit == nil {
+				continue
+			}
+			wm := wit()
+			wm["file"], wm["file_is"], wm["file_bytes"] = n, what, describeBytes(b)
+			r.Violation(fmt.Sprintf("cache-file-holds-another-lists-content:%s:from-%s", targetClass(t), other),
+				"a cache file holds the content of another list", wm)
+			continue
+		}
 		summ[n] = "NOT-A-COMPLETE-VERSION: " + what
 		// the key names the faulty response the bytes come from (stable over
 		// later rounds), or failing that the fault of the current round
@@ -533,6 +559,10 @@ func (ru *runner) runScenario(sc scenario) {
 					// the index in the cache has no usable entry for rl_b:
 					// what a start makes of it is not compared
 					pre[tRLb] = -1
+				}
+				if bytes.Contains(w.legit[tIdx][iv], []byte(ixAbsURLShort)) {
+					// ... and does not list rl_c
+					pre[tRLc] = -1
 				}
 			}
 		}
@@ -647,6 +677,13 @@ func (ru *runner) runScenario(sc scenario) {
 		if len(o.Errs) > 0 {
 			fail("filtering-error", "filtering failed or filtered a host no list contains", map[string]any{"errors": o.Errs})
 		}
+		for _, t := range ruleListTargets {
+			if len(o.Foreign[t]) > 0 {
+				fail(fmt.Sprintf("list-serves-another-lists-content:rulelist:%s", kind),
+					"a rule list, enabled alone, filters hosts that only another list contains",
+					map[string]any{"list": t, "serves_content_of": o.Foreign[t]})
+			}
+		}
 		for _, t := range unclean {
 			fail(fmt.Sprintf("serves-incomplete-version:%s:%s", targetClass(t), kind),
 				"a list serves something that is not one complete version (parts of a version, or several versions)",
@@ -678,6 +715,9 @@ func (ru *runner) runScenario(sc scenario) {
 					what = "a list whose index entry has a valid id but an unusable URL is no longer served instead of keeping its previous complete version"
 				}
 				fail(key, what, map[string]any{"list": t, "served_before": p, "served_after": q})
+			case !affected && f != nil && idxRemoves(f.Kind) == t && q == 0:
+				// the index legitimately does not list it any more
+				r.Bucket("lists_removed_by_index", 1)
 			case !affected && q != p && q != v:
 				key := "other-list-wrong-version"
 				if q == 0 {
@@ -717,6 +757,12 @@ func (ru *runner) runScenario(sc scenario) {
 				if known && t == tRLb {
 					continue
 				}
+				if idxRemoves(f.Kind) == t {
+					if post[t] != 0 {
+						missing = append(missing, "removal of "+t)
+					}
+					continue
+				}
 				if post[t] != v {
 					missing = append(missing, t)
 				}
@@ -726,6 +772,12 @@ func (ru *runner) runScenario(sc scenario) {
 					map[string]any{"not_applied": missing})
 			} else {
 				r.Bucket("partial_index_valid_entries_applied", 1)
+			}
+			if isIdxAbsent(f.Kind) && live {
+				// the class that needs a history: the same storage loaded a
+				// differently ordered index before
+				r.Bucket("partial_index_absent_member_rounds_on_live_storage", 1)
+				r.Bucket("partial_index_absent_member/"+f.Kind, 1)
 			}
 			if isIdxDup(f.Kind) && live && pre[tRLb] > 0 {
 				// the class that needs a history: rl_b had a previous version
@@ -827,6 +879,13 @@ func (ru *runner) finalRestart(w *world, sc scenario, conf instConf, recs []roun
 		wm["list"], wm["hits_per_version"] = t, o.Lists[t].Hits
 		r.Violation(fmt.Sprintf("restart:serves-incomplete-version:%s", targetClass(t)), "after a restart a list serves something that is not one complete version", wm)
 	}
+	for _, t := range ruleListTargets {
+		if len(o.Foreign[t]) > 0 {
+			wm := witness()
+			wm["list"], wm["serves_content_of"] = t, o.Foreign[t]
+			r.Violation(fmt.Sprintf("restart:list-serves-another-lists-content:after-%s", kind), "after a restart a rule list filters hosts that only another list contains", wm)
+		}
+	}
 	// which rule lists does the index on disk validly list?
 	idxV := dv[tIdx]
 	for _, t := range servingLists {
@@ -839,6 +898,9 @@ func (ru *runner) finalRestart(w *world, sc scenario, conf instConf, recs []roun
 				continue
 			}
 			if t == tRLb && bytes.Contains(w.legit[tIdx][idxV], []byte("idx-known-")) {
+				continue
+			}
+			if t == tRLc && bytes.Contains(w.legit[tIdx][idxV], []byte(ixAbsURLShort)) {
 				continue
 			}
 		}
@@ -877,6 +939,9 @@ func applicable() []faultSpec {
 		out = append(out, faultSpec{k, tIdx})
 	}
 	for _, k := range idxDupKinds {
+		out = append(out, faultSpec{k, tIdx})
+	}
+	for _, k := range idxAbsentKinds {
 		out = append(out, faultSpec{k, tIdx})
 	}
 	return out
@@ -1068,6 +1133,7 @@ func TestCheck(t *testing.T) {
 	r.Require("restarts_ok", 100)
 	r.Require("partial_index_valid_entries_applied", 8)
 	r.Require("partial_index_duplicate_key_rounds_with_previous_version", 5)
+	r.Require("partial_index_absent_member_rounds_on_live_storage", 5)
 	r.Require("kills", 90)
 	r.Require("kills/stall", 30)
 	r.Require("kills/inject", 40)
